@@ -209,12 +209,15 @@ find_deleted = Contract(
     modifies=[])
 find_deleted.attr_models = {('Msg', 'uid'): lambda ex, frame, ref: VInt(_UID_OF(ref.t))}
 
-CONTRACTS = [find_deleted, FL.flagop_apply, FL.perm_intersect, FL.sess_intersect, FL.sess_update, SS.get_range,
+from . import session as SES  # noqa: E402
+_session_c01 = [c for c in SES.make('C01') if c.qualname.split('.')[-1] in ('move_messages', 'copy_messages', 'update_flags',
+                                                                             'fetch_messages', 'expunge_mailbox')]
+CONTRACTS = _session_c01 + [find_deleted, FL.flagop_apply, FL.perm_intersect, FL.sess_intersect, FL.sess_update, SS.get_range,
              SEL.get_uids, SEL.get_all, copy, move, delete, update]
 
 PROPERTY = Property(
     'C10', 'Message commands behave as the IMAP reference model says',
-    contracts=CONTRACTS, registry=REG,
+    contracts=CONTRACTS, registry=dict(list(SES.REG.items()) + list(REG.items())),
     bounded=[Bounded('real server vs. reference model (dict backend)',
                      'every single command and (quick: a reduced, thorough: the full) set of command pairs over STORE '
                      '(5 modes x 6 flag lists x 10 sequence-set shapes incl. reversed, *, N:* beyond the end, '
